@@ -470,6 +470,13 @@ func (r *hdRun) exec(o *hdOp) string {
 			var terms []string
 			for _, u := range o.Users {
 				id, t := r.resolve(u.Id)
+				if u.Id != nil && !o.RawRS && s.foreignRoomSession(id, o.B) {
+					// the string is, right now, the room-session id of a session of another backend: that is the
+					// region of the known finding C03/room-session-map/global-api (witnessed by its own directed
+					// case); generated cases stay outside it
+					r.notes = append(r.notes, "api user replaced: foreign room session id")
+					id, t = "no-such-room-session", "(IdOther 30)"
+				}
 				e := map[string]interface{}{"sessionId": id, "inCall": u.InCall}
 				if u.RS > 0 {
 					urs := u.RS
